@@ -17,6 +17,7 @@ type Ctx struct {
 	eff  *Effects
 	memo map[string]*RuleResult
 	gcs  map[*ssa.Function]*GCNF
+	gcsOpt map[string]*GCNF
 	ctl  *Ctx // positive-control program
 }
 
